@@ -80,6 +80,19 @@ func parseBitString(bytes []byte) (r BitString, e error) {
 	return
 }
 
+// parseSignedInt64 reads the contents octets of an INTEGER or ENUMERATED
+// value: a two's complement number (X.690 8.3).
+func parseSignedInt64(bytes []byte) (int64, error) {
+	r, e := parseInt64(bytes)
+	if e != nil || len(bytes) == 0 {
+		return r, e
+	}
+	// extend the sign bit of the first contents octet
+	shift := uint(64 - 8*len(bytes))
+	return (r << shift) >> shift, nil
+}
+
+// parseInt64 reads up to 8 octets as an unsigned big-endian number (lengths).
 func parseInt64(bytes []byte) (r int64, e error) {
 	if len(bytes) > 8 {
 		e = fmt.Errorf("out of range of int64")
@@ -136,7 +149,7 @@ func ParseField(v reflect.Value, bytes []byte, params fieldParameters) error {
 		v.Set(reflect.ValueOf(val))
 		return nil
 	case EnumeratedType:
-		val, parse_err := parseInt64(bytes[talOff:])
+		val, parse_err := parseSignedInt64(bytes[talOff:])
 		if parse_err != nil {
 			return parse_err
 		}
@@ -160,7 +173,7 @@ func ParseField(v reflect.Value, bytes []byte, params fieldParameters) error {
 			return nil
 		}
 	case reflect.Int, reflect.Int32, reflect.Int64:
-		if parsedInt, parse_err := parseInt64(bytes[talOff:]); parse_err != nil {
+		if parsedInt, parse_err := parseSignedInt64(bytes[talOff:]); parse_err != nil {
 			return parse_err
 		} else {
 			val.SetInt(parsedInt)
